@@ -204,6 +204,36 @@ def relevant(prop, fields, a, b, opline=""):
     return True
 
 
+def _evs(v):
+    v = (v or "").strip()
+    return v[1:-1].split() if v.startswith("[") and v.endswith("]") else []
+
+
+# which events of a line's event list a property's statements are about: the ownership events (drops) for all of
+# them; the closure / predicate / clone callbacks where the property counts or orders them. How often a *size
+# estimate* is taken is nobody's promise (only that the accounting comes out right, which other fields show).
+EV_KINDS = {"C06": ("dK", "dV"), "C10": ("dK", "dV"), "C03": ("dK", "dV"), "C12": ("dK", "dV"), "C04": ("dK", "dV"),
+            "C11": ("dK", "dV", "cl"), "C15": ("dK", "dV", "pr"), "C14": ("dK", "dV", "cK", "cV")}
+
+
+def only_callbacks(prop, fields, a, b):
+    """The property is concerned on this line only through the event list / the hash count, and the part of
+    them it speaks about agrees: an extra size estimate or a hash call within C20's bound (which the monitor
+    checks on the implementation directly) is not a disagreement about this property."""
+    if not fields:
+        return False
+    if prop == "C20" and fields <= {"h", "hs"}:
+        return True
+    if fields <= {"ev"} and prop in EV_KINDS:
+        keep = EV_KINDS[prop]
+        pa = [e for e in _evs(a.get("ev")) if e.split(":")[0] in keep]
+        pb = [e for e in _evs(b.get("ev")) if e.split(":")[0] in keep]
+        if prop in ("C06", "C10", "C04", "C12", "C14"):
+            pa, pb = sorted(pa), sorted(pb)
+        return pa == pb
+    return False
+
+
 def line_is_shared(ops_line):
     name = op_name(ops_line)
     toks = ops_line.split(" | ")[0].split(" ")
@@ -578,8 +608,11 @@ def compare(ctx, res):
                 out.append({"line": i, "fields": ["ar"], "props": newp, "ops": ops[i], "obs": obs[i], "pred": pred[i], "start": start})
             continue
         props = set()
+        via = {}   # property -> the differing fields that speak about it on this line
         drifted = bool(prior) and bool({"ord", "rord", "rs", "lru", "mru"} & set(fields))
         for f in fields:
+            for q in line_props(ops[i], f):
+                via.setdefault(q, set()).add(f)
             if drifted and f in ("ord", "rord", "rs", "lru", "mru", "ret", "ev", "h", "hs", "lb"):
                 # contents/order differ at the first full line after light lines: the divergence belongs to
                 # one of the operations since the last full observation — to the mutating ones, unless all
@@ -597,7 +630,7 @@ def compare(ctx, res):
             props.add("C17")
         if panic_seq and structural & set(fields):
             props.add("C16")
-        props = {q for q in props if q == "*" or relevant(q, fields, a, b, ops[i])}
+        props = {q for q in props if q == "*" or (relevant(q, fields, a, b, ops[i]) and not only_callbacks(q, via.get(q), a, b))}
         # light lines cannot be re-synchronised (they show no contents): after one of them diverged, the
         # totals of the following light lines only repeat that divergence
         if not is_full:
